@@ -4,6 +4,7 @@ import random, itertools, re
 import props as P
 from props import Prop, register, mk, mutate, budget
 import tgen, refcbor, forms
+from tgen import reg_values
 from tgen import T, BYTE_TYPES, TAGGED, TYPED_TYPES, INTS, WIDE, TEXTS
 from forms import vsx, parse, render, canon_nan
 from props_streams import dec_ops, head_variants, int_encodings, C02, lenbytes, NONCANON_PH, nestG, NEST_PATTERNS
@@ -46,7 +47,9 @@ class C06(Prop):
             if r.random() < 0.5: pre.append('(unprotected %s)' % hdr())
             detached = fam in ('CoseSign1Builder', 'CoseSignBuilder') and r.random() < 0.4
             tagged = 'T' if (fam != 'CoseRecipientBuilder' and r.random() < 0.4) else 'F'
-            paad = aad if r.random() < 0.8 else aad + b'\x00'
+            paad = aad if r.random() < 0.8 else r.choice([aad + b'\x00', refcbor.head(2, len(aad)) + aad, aad[1:] if aad[:1] and aad[0] == 0x40 + len(aad) - 1 else aad + b'\x01'])
+            if r.random() < 0.1:      # an AAD that is itself one CBOR byte string, checked under the inner bytes (informed round 9)
+                inner_ = lenbytes(r, 0.0); aad = refcbor.head(2, len(inner_)) + inner_; paad = r.choice([aad, inner_])
             meta = dict(k=fam, late=late, same_aad=(paad == aad), detached=detached)
             if fam in ('CoseSign1Builder', 'CoseSignBuilder', 'CoseMacBuilder', 'CoseMac0Builder') and not detached:
                 if r.random() < 0.9 or fam.startswith('CoseMac'): pre.append('(payload b%s)' % pl.hex())
@@ -485,6 +488,13 @@ class C12(Prop):
         # text length, text bytes), so that a lookup which depends on arrival order, on the running maximum or on a comparison that
         # is not antisymmetric misses the repeat (seeded C07-r5, C08-r5, C12-r5)
         OTHERS = [99, 100, 101, 102, 103, 104, -99, 10, 11, 23, 25, 255, 257, -2, -26, 70000, -70000, b'b', b'ab', b'abc', b'z', b'aa', b'ba', 'é'.encode(), b'zz', b'a' * 24]
+        # … and every small integer and every value registered in any IANA table of the crate as a neighbour (informed round 9: a
+        # neighbour that is a registered CBOR tag number emptied the seen-set)
+        regvals = sorted(set(v for name in ('CborTag', 'HeaderParameter', 'KeyParameter', 'KeyType', 'Algorithm', 'CwtClaimName', 'EllipticCurve', 'KeyOperation', 'CoapContentFormat') for v in reg_values(name)))
+        OTHERS = OTHERS + [v for v in list(range(8, 130)) + regvals if v not in OTHERS and not (0 <= v <= 7)]
+        # valid values of every form for the typed labels, so that the first occurrence is processed, not refused
+        TYPED = {1: [b'\x26', b'\x01'], 2: [b'\x81\x01', b'\x82\x01\x04'], 3: [b'\x00', b'\x63a/b'], 4: [b'\x41\x01', b'\x42\x31\x31'], 5: [b'\x41\x02'], 6: [b'\x41\x03'],
+                 7: [b'\x83\x40\xa0\x40', b'\x81\x83\x40\xa0\x40', b'\x82\x83\x40\xa0\x40\x83\x40\xa0\x41\x01']}
         def dupmap(t):
             n = r.choice([2, 2, 3, 3, 4, 6])
             lab = r.choice(labs) if r.random() < 0.7 else r.choice([b'a', b'ab', b'claim', b'', b'b', b'zz'])
@@ -492,7 +502,7 @@ class C12(Prop):
             pool = [x for x in OTHERS if x != lab]; r.shuffle(pool)
             ent = []
             for p in range(n):
-                if p in (i, j): ent.append(r.choice(key_encs(lab)) + r.choice(vals))
+                if p in (i, j): ent.append(r.choice(key_encs(lab)) + (r.choice(TYPED[lab]) if (lab in TYPED and r.random() < 0.7) else r.choice(vals)))
                 else:
                     o = pool.pop()
                     ent.append((refcbor.encode(I(o)) if isinstance(o, int) else refcbor.head(3, len(o)) + o) + r.choice(vals[:4]))
@@ -620,6 +630,13 @@ class C13(Prop):
         for _ in range(budget(tier, 800, 10000)):
             t = r.choice(TYPED_TYPES)
             ops.append(mk('layer %s b%s' % (t, g.venc(g.wire(t)).hex()), k='layer'))
+        # a correctly tagged item under another tag is not a tagged item of the type (informed round 9: the tagged byte-level decoder
+        # retried on the content of a wrong tag)
+        for t, tag in TAGGED.items():
+            body = g.venc(g.wire(t))
+            for outer in (0, 61, 55799, 24, 2**32, tag + 1):
+                ops.append(mk('dect %s b%s' % (t, (refcbor.head(6, outer) + refcbor.head(6, tag) + body).hex()), k='outer-tag', must_reject=True))
+                ops.append(mk('dect %s b%s' % (t, (refcbor.head(6, outer) + refcbor.head(6, outer) + refcbor.head(6, tag) + body).hex()), k='outer-tag', must_reject=True))
         # nesting around the parser's budget: the byte-level decoders and parse-then-convert agree there too (informed-adversary
         # round: `from_reader_with_recursion_limit(slice.len())` in read_to_value accepts what ciborium's own entry point refuses)
         for d in (254, 255, 256, 257, 258, 300, 1000):
@@ -651,6 +668,7 @@ class C13(Prop):
                 else: rs.append(render(it[i + 1]) if it[i] == 'ok' else 'err ' + it[i + 1]); i += 2
             if len(rs) >= 2 and rs[0] != rs[1]: return ('fail', 'from_slice differs from parse-then-convert')
             if len(rs) == 4 and rs[2] != rs[3]: return ('fail', 'to_vec differs from convert-then-serialise')
+        if m.get('must_reject') and impl.startswith('ok'): return ('fail', 'an item that is not the type\'s tag applied once to an accepted body was accepted by the tagged byte-level decoder')
         if m.get('k') == 'pair-value': self.pairs[m['pair']] = impl
         if m.get('k') == 'pair-bytes' and m['pair'] in self.pairs:
             tv = self.pairs.pop(m['pair']); m['value_layer'] = tv[:400]      # kept in the replay: what `tov` of the same value gave
